@@ -28,6 +28,7 @@ type cgen struct {
 	n       int
 	concrete bool
 	leaves  []*Lit
+	noNamed, noBuiltin, noConvert, noNegI32, noSplat bool
 }
 
 func (g *cgen) intn(n int, label string) int {
@@ -68,7 +69,11 @@ func (g *cgen) lit(k Kind) *Lit {
 		}
 		l = &Lit{T: TF32, Bits: math.Float32bits(f)}
 	case AbsInt:
-		v := cIntVals[g.intn(len(cIntVals), "ca")]
+		nv := len(cIntVals)
+		if g.is("const.abstract-int.wide") {
+			nv = 19 // keep abstract integers inside the i32 range
+		}
+		v := cIntVals[g.intn(nv, "ca")]
 		if g.chance(30, "can") {
 			v = -v
 		}
@@ -82,7 +87,10 @@ func (g *cgen) lit(k Kind) *Lit {
 		d := []float64{1, 2, 4, 8}[g.intn(4, "cafd")]
 		f := float64(k) / d
 		if g.chance(6, "cafbig") {
-			f = []float64{1e10, 1e38, 1e39, 1e300, 0.1, 1.0 / 3}[g.intn(6, "cafb")]
+			f = []float64{1e10, 1e38, 0.1, 1.0 / 3, 1e39, 1e300}[g.intn(6, "cafb")]
+			if float64(float32(f)) != f && g.is("const.abstract-float.wide") {
+				f = 1e10 // keep abstract floats exactly representable in binary32
+			}
 		}
 		l = &Lit{T: TAbsF, F: f}
 	}
@@ -101,14 +109,24 @@ func (g *cgen) conv(t *Type, depth int) Expr {
 		case I32, U32:
 			return g.expr(TAbsI, depth)
 		case F32:
-			if g.chance(50, "cabsf") {
+			if g.chance(50, "cabsf") || g.is("const.absint-div.float-context") {
 				return g.expr(TAbsF, depth)
 			}
 			return g.expr(TAbsI, depth)
 		}
 	}
-	if t.K == TScalar && t.S == AbsFloat && g.chance(30, "cabsi") {
+	if t.K == TScalar && t.S == AbsFloat && g.chance(30, "cabsi") && !g.is("const.absint-div.float-context") {
 		return g.expr(TAbsI, depth)
+	}
+	return g.expr(t, depth)
+}
+
+// convArg generates the operand of a value conversion.
+func (g *cgen) convArg(t *Type, depth int) Expr {
+	if g.is("const.convert.of-named") {
+		save := g.noNamed
+		g.noNamed = true
+		defer func() { g.noNamed = save }()
 	}
 	return g.expr(t, depth)
 }
@@ -142,7 +160,7 @@ func (g *cgen) expr(t *Type, depth int) Expr {
 	}
 	k := t.S
 	if depth <= 0 || g.chance(18, "cleaf") {
-		if g.chance(20, "cnamed") && !g.is("const.named") {
+		if g.chance(20, "cnamed") && !g.is("const.named") && !g.noNamed {
 			return g.named(t)
 		}
 		return g.lit(k)
@@ -171,13 +189,16 @@ func (g *cgen) expr(t *Type, depth int) Expr {
 		case r < 50:
 			ops := []string{"+", "-", "*", "/", "%", "&", "|", "^"}
 			op := ops[g.intn(len(ops), "ciop")]
+			if k == AbsInt && (op == "/" || op == "%") && g.is("const.absint-div.float-context") {
+				op = "+"
+			}
 			g.class("bin" + op + ":" + k.String())
 			l, rr := g.expr(t, depth-1), g.conv(t, depth-1)
 			if g.chance(50, "cswap") && op != "/" && op != "%" && op != "-" {
 				l, rr = rr, l
 			}
 			return &Binary{Op: op, L: l, R: rr, T: t}
-		case r < 60:
+		case r < 60 && !(k == AbsInt && g.is("const.absint.shift")):
 			op := []string{"<<", ">>"}[g.intn(2, "cshop")]
 			g.class("bin" + op + ":" + k.String())
 			amt := &Lit{T: TU32, Bits: uint32(g.intn(34, "csh"))}
@@ -185,18 +206,27 @@ func (g *cgen) expr(t *Type, depth int) Expr {
 			return &Binary{Op: op, L: g.expr(t, depth-1), R: amt, T: t}
 		case r < 70:
 			op := "~"
-			if k != U32 && g.chance(60, "cneg") {
+			if k != U32 && g.chance(60, "cneg") && !g.noNegI32 {
 				op = "-"
 			}
 			g.class("unary" + op + ":" + k.String())
+			if op == "-" && k == I32 && g.is("const.neg.named-int") {
+				save := g.noNamed
+				g.noNamed = true
+				x := g.expr(t, depth-1)
+				g.noNamed = save
+				if _, isRef := x.(*VarRef); !isRef {
+					return &Unary{Op: op, X: x, T: t}
+				}
+			}
 			return &Unary{Op: op, X: g.expr(t, depth-1), T: t}
-		case r < 84 && k != AbsInt:
+		case r < 84 && k != AbsInt && !g.noBuiltin:
 			names := []string{"abs", "min", "max", "clamp", "countOneBits", "countLeadingZeros", "countTrailingZeros", "reverseBits", "firstLeadingBit", "firstTrailingBit"}
 			n := names[g.intn(len(names), "cib")]
 			if k == U32 && n == "abs" {
 				n = "max"
 			}
-			if g.is("const.builtin." + n) {
+			if g.is("const.builtin."+n) || g.is("builtin."+n) {
 				n = "min"
 			}
 			g.class("builtin:" + n + ":" + k.String())
@@ -208,15 +238,15 @@ func (g *cgen) expr(t *Type, depth int) Expr {
 			default:
 				return &Builtin{Name: n, Args: []Expr{g.expr(t, depth-1)}, T: t}
 			}
-		case r < 94 && k != AbsInt:
+		case r < 94 && k != AbsInt && !g.noConvert:
 			// conversion from another kind
 			src := []Kind{Bool, I32, U32, F32, AbsInt, AbsFloat}[g.intn(6, "ccs")]
 			if src == k {
 				src = AbsInt
 			}
 			g.class("convert:" + src.String() + "->" + k.String())
-			return &Construct{T: t, Args: []Expr{g.expr(Scalar(src), depth-1)}}
-		case k != AbsInt:
+			return &Construct{T: t, Args: []Expr{g.convArg(Scalar(src), depth-1)}}
+		case k != AbsInt && !g.noBuiltin:
 			g.class("select:" + k.String())
 			return &Builtin{Name: "select", Args: []Expr{g.expr(t, depth-1), g.conv(t, depth-1), g.expr(TBool, depth-1)}, T: t}
 		}
@@ -236,10 +266,10 @@ func (g *cgen) expr(t *Type, depth int) Expr {
 		case r < 58:
 			g.class("unary-:" + k.String())
 			return &Unary{Op: "-", X: g.expr(t, depth-1), T: t}
-		case r < 84 && k == F32:
+		case r < 84 && k == F32 && !g.noBuiltin:
 			names := []string{"abs", "min", "max", "floor", "ceil", "trunc", "round", "fract", "sign", "step", "saturate", "sqrt", "clamp", "fma", "pow", "exp2"}
 			n := names[g.intn(len(names), "cfb")]
-			if g.is("const.builtin." + n) {
+			if g.is("const.builtin."+n) || g.is("builtin."+n) {
 				n = "abs"
 			}
 			g.class("builtin:" + n + ":f32")
@@ -257,11 +287,11 @@ func (g *cgen) expr(t *Type, depth int) Expr {
 			default:
 				return &Builtin{Name: n, Args: []Expr{g.expr(t, depth-1)}, T: t}
 			}
-		case r < 94 && k == F32:
+		case r < 94 && k == F32 && !g.noConvert:
 			src := []Kind{Bool, I32, U32, AbsInt, AbsFloat}[g.intn(5, "cfcs")]
 			g.class("convert:" + src.String() + "->f32")
-			return &Construct{T: t, Args: []Expr{g.expr(Scalar(src), depth-1)}}
-		case k == F32:
+			return &Construct{T: t, Args: []Expr{g.convArg(Scalar(src), depth-1)}}
+		case k == F32 && !g.noBuiltin:
 			g.class("select:f32")
 			return &Builtin{Name: "select", Args: []Expr{g.expr(t, depth-1), g.conv(t, depth-1), g.expr(TBool, depth-1)}, T: t}
 		}
@@ -275,7 +305,7 @@ func (g *cgen) vec(t *Type, depth int) Expr {
 	st := t.ScalarOf()
 	if depth <= 0 || g.chance(25, "cvleaf") {
 		g.class("construct:vec")
-		if g.chance(25, "cvsplat") {
+		if g.chance(25, "cvsplat") && !g.noSplat {
 			return &Construct{T: t, Args: []Expr{g.expr(st, depth-1)}}
 		}
 		args := make([]Expr, t.N)
@@ -288,6 +318,9 @@ func (g *cgen) vec(t *Type, depth int) Expr {
 	}
 	g.nodes++
 	r := g.intn(100, "cvp")
+	if g.noSplat && r < 45 {
+		r = 45 + r%15 // no component-wise vector operators at module-scope sites (open finding)
+	}
 	switch {
 	case r < 45:
 		var ops []string
@@ -369,6 +402,17 @@ func GenConstCase(t *rapid.T, off func(string) bool) *ConstCase {
 	c := &ConstCase{Site: site}
 	depth := 1 + g.intn(4, "cdepth")
 	switch site {
+	case "module-const", "module-const-inferred":
+		g.noNamed = g.is("const.module-site.named")
+		g.noNegI32 = g.is("const.module-inferred.neg-neg")
+		g.noSplat = g.is("const.module-site.vec-splat")
+		g.noConvert = g.is("const.module-site.convert")
+	case "array-size", "case-selector", "workgroup-size", "const-assert":
+		g.noNamed = g.is("const.int-site.named")
+		g.noBuiltin = g.is("const.int-site.builtin")
+		g.noConvert = g.is("const.int-site.convert")
+	}
+	switch site {
 	case "array-size", "case-selector", "workgroup-size":
 		// integer-valued: the observed quantity must stay a small positive number,
 		// which the wrapper ((E % 7) + 7) % 7 + 1 ensures for every E
@@ -429,6 +473,7 @@ func GenConstCase(t *rapid.T, off func(string) bool) *ConstCase {
 	if _, bare := c.E.(*VarRef); bare && (site == "module-const" || site == "module-const-inferred") && g.is("const.alias") {
 		c.Site = "let"
 	}
+
 	c.Decls, c.Nodes = g.decls, g.nodes
 	if g.concrete {
 		c.Leaves = g.leaves
